@@ -1,9 +1,298 @@
 import BronVerif.Drive.Common
-/-! Driver handlers for C15. -/
-namespace BronVerif.Drive.C15
-open BronVerif BronVerif.Drive
+import BronVerif.Model.Curves
+import BronVerif.Model.Sig
+import BronVerif.Model.Hash.Sha2
+import BronVerif.Model.Hash.Keccak
+import BronVerif.Model.Hash.Blake2b
+/-!
+Driver handlers for C15 (single-party signatures).
 
-def handle (op : String) (_args : List String) (_rhs : String) : Verdict :=
-  .unsupported ("C15 op " ++ op)
+The generic models of `Model/Sig.lean` are instantiated with `F := Fp C.n` and `G := CPt C`
+(runtime curve points of `Model/Curves.lean`, arithmetic = the affine chord-and-tangent /
+Edwards laws).  Message digests and Fiat–Shamir challenges are taken from the line (the Go harness
+recomputes them independently of the library where a standard hash is used); the handlers are
+structured as `… (e : Fp n)` so that recomputation from the message can replace the argument once
+the hash models are available.
+-/
+namespace BronVerif.Drive.C15
+open BronVerif BronVerif.Drive BronVerif.Curves BronVerif.Sig
+
+/-- curve points as a type carrying the notation classes the signature models need -/
+structure CPt (C : Params) where
+  pt : Pt
+deriving DecidableEq
+
+instance (C : Params) : Add (CPt C) := ⟨fun a b => ⟨Curves.add C a.pt b.pt⟩⟩
+instance (C : Params) : Neg (CPt C) := ⟨fun a => ⟨Curves.neg C a.pt⟩⟩
+instance (C : Params) : OfNat (CPt C) 0 := ⟨⟨Curves.zero C⟩⟩
+instance (C : Params) [NeZero C.n] : SMul (Fp C.n) (CPt C) := ⟨fun k P => ⟨Curves.smul C k.val P.pt⟩⟩
+
+def withCurve (name : String) (f : (C : Params) → [NeZero C.n] → Verdict) : Verdict :=
+  match byName? name with
+  | none => .unsupported ("curve " ++ name)
+  | some C => if h : C.n = 0 then .unsupported "n=0" else
+    haveI : NeZero C.n := ⟨h⟩
+    f C
+
+def gen' (C : Params) : CPt C := ⟨Curves.gen C⟩
+
+def parsePt (C : Params) (s : String) : Option (CPt C) := (Curves.parse? C s).map (⟨·⟩)
+def parsePts (C : Params) (s : String) : Option (List (CPt C)) := (Curves.parseList? C s).map (·.map (⟨·⟩))
+def renderPt {C : Params} (P : CPt C) : String := Curves.render C P.pt
+
+/-- membership in the prime-order subgroup; for cofactor 1 every curve point is in it (the group has
+prime order `n`), so the `n•P = 0` test is skipped there -/
+def tf {C : Params} (P : CPt C) : Bool := if C.h = 1 then Curves.onCurve C P.pt else Curves.inSubgroup C P.pt
+
+/-- affine x / y of a single-component point -/
+def xOf {C : Params} (P : CPt C) : Option Nat := match P.pt.coords with
+  | some ([x], _) => some x
+  | _ => none
+def yOf {C : Params} (P : CPt C) : Option Nat := match P.pt.coords with
+  | some (_, [y]) => some y
+  | _ => none
+
+/-- x-coordinate reduced into the scalar field (0 for the identity; the verifier rejects it before) -/
+def xr {C : Params} [NeZero C.n] (P : CPt C) : Fp C.n := Fp.ofNat C.n ((xOf P).getD 0)
+
+def evenY {C : Params} (P : CPt C) : Bool := match yOf P with
+  | some y => y % 2 == 0
+  | none => true
+
+/-- `IsNormalized`: `s ≤ n − s` as integers -/
+def lowS {n : Nat} [NeZero n] (s : Fp n) : Bool := s.val ≤ (-s).val
+
+/-- `FromAffineX` after the `r (+ n) mod p` computation of `RecoverPublicKey` -/
+def liftR (C : Params) [NeZero C.n] (r : Fp C.n) (v : Nat) : Option (CPt C) :=
+  if v ≥ 4 then none else
+  if h : C.p = 0 then none else
+    haveI : NeZero C.p := ⟨h⟩
+    let x : Fp C.p := Fp.ofNat C.p (r.val + (if v / 2 % 2 = 1 then C.n else 0))
+    let rhs := x * x * x + Fp.ofNat C.p C.a * x + Fp.ofNat C.p C.b
+    match Fp.sqrt? rhs with
+    | none => none
+    | some y =>
+      let y' := if (y.val % 2 == 1) == (v % 2 == 1) then y else -y
+      some ⟨⟨some ([x.val], [y'.val])⟩⟩
+
+/-- `DigestToScalar`: leftmost `min(len, ⌈bits/8⌉)` bytes, right-shifted to `bits` bits, mod `n` -/
+def digestToScalar (n : Nat) [NeZero n] (digest : ByteArray) : Fp n :=
+  let size := (n.log2 + 1 + 7) / 8
+  let bits := n.log2 + 1
+  if digest.size ≥ size then
+    let d := digest.extract 0 size
+    let v := bytesToNatBE d
+    Fp.ofNat n (v >>> (size * 8 - bits))
+  else Fp.ofNat n (bytesToNatBE digest)
+
+def parseV (s : String) : Option (Option Nat) :=
+  if s == "-" then some none else s.toNat?.map some
+
+def renderV : Option Nat → String
+  | none => "-"
+  | some v => toString v
+
+def acc (b : Bool) : String := if b then "accept" else "reject"
+
+def fpOf (n : Nat) [NeZero n] (s : String) : Option (Fp n) :=
+  (hexToNat? s).bind fun v => if v < n then some (Fp.ofNat n v) else none
+
+def allDistinct {α} [DecidableEq α] : List α → Bool
+  | [] => true
+  | x :: xs => !(xs.contains x) && allDistinct xs
+
+/-- the hash models available for exact recomputation (SHA-1 is not modelled: its digest is taken from
+the line, computed there by Go's crypto/sha1) -/
+def hashByName? (name : String) : Option (ByteArray → ByteArray) :=
+  match (name.splitOn "-rfc6979").headD name with
+  | "sha256" => some Hash.sha256
+  | "sha512" => some Hash.sha512
+  | "sha224" => some Hash.sha224
+  | "sha384" => some Hash.sha384
+  | "sha512-256" => some Hash.sha512_256
+  | "sha3-256" => some Hash.sha3_256
+  | "sha3-512" => some Hash.sha3_512
+  | "blake2b-256" => some Hash.blake2b256
+  | _ => none
+
+/-- message digest: recomputed from the message when the hash is modelled (`none` when the recomputed
+digest differs from the one Go's standard library produced — a broken hash model, not a property
+failure), else the digest of the line -/
+def digestOf (hash : String) (msg lineDigest : ByteArray) : Option ByteArray :=
+  match hashByName? hash with
+  | none => some lineDigest
+  | some h => let d := h msg; if d.data == lineDigest.data then some d else none
+
+/-- canonical point encodings hashed by the configurable Schnorr challenge: SEC1 compressed for
+k256/p256, RFC 8032 for ed25519 -/
+def encodePoint {C : Params} (P : CPt C) : Option ByteArray :=
+  match P.pt.coords with
+  | some ([x], [y]) =>
+    if C.name == "k256" || C.name == "p256" then
+      some (ByteArray.mk #[if y % 2 == 0 then 2 else 3] ++ natToBytesBE x 32)
+    else if C.name == "ed25519" then
+      if Curves.isZero C P.pt then none else
+      some (natToBytesLE (y + (x % 2) * 2 ^ 255) 32)
+    else none
+  | _ => none
+
+/-- configurable-Schnorr challenge `H(R ‖ P ‖ m)` (digest byte-reversed when `le`), reduced mod `n` -/
+def schnorrChallenge {C : Params} [NeZero C.n] (hash : String) (le : Bool) (R pk : CPt C) (msg : ByteArray) : Option (Fp C.n) :=
+  match hashByName? hash, encodePoint R, encodePoint pk with
+  | some h, some rb, some pb =>
+    let d := h (rb ++ pb ++ msg)
+    some (Fp.ofNat C.n (if le then bytesToNatLE d else bytesToNatBE d))
+  | _, _, _ => none
+
+/-- BIP-340 challenge: tagged SHA-256 of `x(R) ‖ x(P) ‖ m`, reduced mod `n` -/
+def bip340Challenge {C : Params} [NeZero C.n] (R pk : CPt C) (msg : ByteArray) : Option (Fp C.n) :=
+  match xOf R, xOf pk with
+  | some rx, some px =>
+    let tag := Hash.sha256 "BIP0340/challenge".toUTF8
+    some (Fp.ofNat C.n (bytesToNatBE (Hash.sha256 (tag ++ tag ++ natToBytesBE rx 32 ++ natToBytesBE px 32 ++ msg))))
+  | _, _ => none
+
+/-- use the recomputed challenge when available; it must agree with the value in the line -/
+def withChallenge {n : Nat} (key : String) (model : Option (Fp n)) (line : Fp n) (k : Fp n → Verdict) : Verdict :=
+  match model with
+  | none => k line
+  | some e => if e = line then k e else .bad key ("challenge recomputed from the message = " ++ e.toHex ++ ", library/harness value = " ++ line.toHex)
+
+def handle (op : String) (args : List String) (rhs : String) : Verdict :=
+  match op, args with
+  /- ecdsa.verify <curve> <hash> <d|s> <pk> <msg> <digest> <r> <s> <v|-> <tag> => accept|reject -/
+  | "ecdsa.verify", [cn, hash, mode, pks, msgs, dg, rs, ss, vs, _tag] => withCurve cn fun C =>
+    match parsePt C pks, hexToBytes? dg, hexToNat? rs, hexToNat? ss, parseV vs, hexToBytes? msgs with
+    | some pk, some lineDigest, some r, some s, some v, some msg =>
+      if r ≥ C.n ∨ s ≥ C.n then .unsupported "r/s out of range" else
+      match digestOf hash msg lineDigest with
+      | none => .diff "digest recomputed by the Lean hash model differs from the Go stdlib digest"
+      | some digest =>
+      let e := digestToScalar C.n digest
+      let model := ecdsaVerify xr (liftR C) lowS (mode == "s") (gen' C) pk e (Fp.ofNat C.n r, Fp.ofNat C.n s, v)
+      spec "ecdsa-verify" (acc model) rhs
+    | _, _, _, _, _, _ => .unsupported "args"
+  /- ecdsa.sign <curve> <hash> <sk> <msg> <digest> => r,s,v : the produced signature must verify for
+     pk = sk•g with the recovery id present (hence v is the true one) -/
+  | "ecdsa.sign", [cn, hash, sks, msgs, dg] => withCurve cn fun C =>
+    match fpOf C.n sks, (hexToBytes? dg).bind (fun d => (hexToBytes? msgs).bind fun m => digestOf hash m d), rhs.splitOn "," with
+    | some sk, some digest, [rs, ss, vs] =>
+      match fpOf C.n rs, fpOf C.n ss, vs.toNat? with
+      | some r, some s, some v =>
+        let e := digestToScalar C.n digest
+        let pk : CPt C := sk • gen' C
+        if ecdsaVerify xr (liftR C) lowS false (gen' C) pk e (r, s, some v) then .ok
+        else .bad "ecdsa-sign-invalid" "signature produced by Sign does not verify in the model (core check or recovery id)"
+      | _, _, _ => .bad "ecdsa-sign-invalid" ("unparsable signature " ++ rhs)
+    | some _, some _, _ => .bad "ecdsa-sign-failed" ("Sign returned " ++ rhs)
+    | _, _, _ => .unsupported "args"
+  /- ecdsa.recover <curve> <digest> <r> <s> <v> => <point>|none -/
+  | "ecdsa.recover", [cn, dg, rs, ss, vs] => withCurve cn fun C =>
+    match hexToBytes? dg, fpOf C.n rs, fpOf C.n ss, vs.toNat? with
+    | some digest, some r, some s, some v =>
+      let e := digestToScalar C.n digest
+      let model := match ecdsaRecover (liftR C) (gen' C) e r s v with
+        | none => "none"
+        | some P => if P = 0 then "none" else renderPt P
+      spec "ecdsa-recover" model rhs
+    | _, _, _, _ => .unsupported "args"
+  /- ecdsa.normalise <curve> <r> <s> <v|-> => r,s,v -/
+  | "ecdsa.normalise", [cn, rs, ss, vs] => withCurve cn fun C =>
+    match fpOf C.n rs, fpOf C.n ss, parseV vs with
+    | some r, some s, some v =>
+      let (r', s', v') := ecdsaNormalise lowS (r, s, v)
+      spec "ecdsa-normalise" (r'.toHex ++ "," ++ s'.toHex ++ "," ++ renderV v' ++ "," ++ (if lowS s' then "low" else "high")) rhs
+    | _, _, _ => .unsupported "args"
+  /- schnorr.verify <curve> <neg 0|1> <pk> <R> <s> <e> <msg> <tag> => accept|reject -/
+  | "schnorr.verify", [cn, cfg, pks, Rs, ss, es, msgs, _tag] => withCurve cn fun C =>
+    match cfg.splitOn ".", parsePt C pks, parsePt C Rs, fpOf C.n ss, fpOf C.n es, hexToBytes? msgs with
+    | [negs, les, hash], some pk, some R, some s, some eLine, some msg =>
+      withChallenge "schnorr-challenge" (schnorrChallenge hash (les == "1") R pk msg) eLine fun e =>
+        spec "schnorr-verify" (acc (schnorrVerify tf (negs == "1") (gen' C) pk R e s)) rhs
+    | _, _, _, _, _, _ => .unsupported "args"
+  /- schnorr.sign <curve> <neg> <sk> <e> <msg> => R,s : the signature verifies for pk = sk•g -/
+  | "schnorr.sign", [cn, cfg, sks, es, msgs] => withCurve cn fun C =>
+    match cfg.splitOn ".", fpOf C.n sks, fpOf C.n es, hexToBytes? msgs, rhs.splitOn "," with
+    | [negs, les, hash], some sk, some eLine, some msg, [Rs, ss] =>
+      match parsePt C Rs, fpOf C.n ss with
+      | some R, some s =>
+        let pk : CPt C := sk • gen' C
+        withChallenge "schnorr-challenge" (schnorrChallenge hash (les == "1") R pk msg) eLine fun e =>
+          if schnorrVerify tf (negs == "1") (gen' C) pk R e s then .ok
+          else .bad "schnorr-sign-invalid" "signature produced by Sign does not verify in the model"
+      | _, _ => .bad "schnorr-sign-invalid" ("unparsable signature " ++ rhs)
+    | [_, _, _], some _, some _, some _, _ => .bad "schnorr-sign-failed" ("Sign returned " ++ rhs)
+    | _, _, _, _, _ => .unsupported "args"
+  /- bip340.verify <pk> <R> <s> <e> <msg> <tag> => accept|reject   (e = challenge for (x R, x pk, msg)) -/
+  | "bip340.verify", [pks, Rs, ss, es, msgs, _tag] => withCurve "k256" fun C =>
+    match parsePt C pks, parsePt C Rs, fpOf C.n ss, fpOf C.n es, hexToBytes? msgs with
+    | some pk, some R, some s, some eLine, some msg =>
+      withChallenge "bip340-challenge" (bip340Challenge R pk msg) eLine fun e =>
+        spec "bip340-verify" (acc (bip340Verify xOf evenY (gen' C) pk R e s)) rhs
+    | _, _, _, _, _ => .unsupported "args"
+  /- bip340.sign <sk> <e> <msg> => R,s : verifies for sk•g and R has even y (so x-only encoding is faithful) -/
+  | "bip340.sign", [sks, es, msgs] => withCurve "k256" fun C =>
+    match fpOf C.n sks, fpOf C.n es, hexToBytes? msgs, rhs.splitOn "," with
+    | some sk, some eLine, some msg, [Rs, ss] =>
+      match parsePt C Rs, fpOf C.n ss with
+      | some R, some s =>
+        let pk : CPt C := sk • gen' C
+        withChallenge "bip340-challenge" (bip340Challenge R pk msg) eLine fun e =>
+          if !(evenY R) then .bad "bip340-sign-odd-R" "Sign returned R with odd y"
+          else if bip340Verify xOf evenY (gen' C) pk R e s then .ok
+          else .bad "bip340-sign-invalid" "signature produced by Sign does not verify in the model"
+      | _, _ => .bad "bip340-sign-invalid" ("unparsable signature " ++ rhs)
+    | some _, some _, some _, _ => .bad "bip340-sign-failed" ("Sign returned " ++ rhs)
+    | _, _, _, _ => .unsupported "args"
+  /- bls.new <curve> <point> => ok|err : constructors admit exactly the non-identity subgroup points -/
+  | "bls.new", [cn, ps] => withCurve cn fun C =>
+    match parsePt C ps with
+    | some P => spec "bls-admissible" (if blsAdmissible tf P then "ok" else "err") rhs
+    | none => .unsupported "args"
+  /- bls.verify <keycurve> <sigcurve> <sk|-> <pk> <Hm> <sig> <tag> => accept|reject
+     group-level truth (Props.C15.bls_verify_iff): accept ⇔ pk, σ admissible ∧ σ = sk•H(m), where sk
+     is the discrete log of the pk in the line (`-` only for a pk outside the subgroup / identity) -/
+  | "bls.verify", [kc, sc, sks, pks, hms, sigs, _tag] => withCurve kc fun K => withCurve sc fun S =>
+    match parsePt K pks, parsePt S hms, parsePt S sigs with
+    | some pk, some hm, some sig =>
+      if !(blsAdmissible tf hm) then .bad "bls-hash-to-curve" "H(m) is not a non-identity subgroup point" else
+      if !(blsAdmissible tf pk) || !(blsAdmissible tf sig) then spec "bls-verify" "reject" rhs else
+      match hexToNat? sks with
+      | none => .unsupported "sk needed for an admissible pk"
+      | some skn =>
+        let sk := skn % K.n
+        if (⟨Curves.smul K sk (Curves.gen K)⟩ : CPt K) ≠ pk then .unsupported "pk != sk*g" else
+        spec "bls-verify" (acc (decide (blsSign (Fp.ofNat S.n sk) hm = sig))) rhs
+    | _, _, _ => .unsupported "args"
+  /- bls.aggregate <curve> <points> => <point>|err -/
+  | "bls.aggregate", [cn, ps] => withCurve cn fun C =>
+    match parsePts C ps with
+    | some xs =>
+      if xs.isEmpty then spec "bls-aggregate" "err" rhs else
+      if (xs.drop 1).any (fun P => !(blsAdmissible tf P)) then spec "bls-aggregate" "err" rhs else
+      spec "bls-aggregate" (renderPt (blsAggregate xs)) rhs
+    | none => .unsupported "args"
+  /- bls.aggverify <keycurve> <sigcurve> <mode b|a|p> <sks> <pks> <Hms> <sig> <Hpops|-> <pops|-> <tag> => accept|reject
+     accept ⇔ every pk admissible, σ admissible, (basic: messages pairwise distinct),
+     (pop: every popᵢ admissible and = skᵢ•Hpop(pkᵢ)), σ = Σ skᵢ•H(mᵢ)  (Props.C15.bls_aggregate_iff) -/
+  | "bls.aggverify", [kc, sc, mode, sks, pks, hms, sigs, hps, pops, _tag] => withCurve kc fun K => withCurve sc fun S =>
+    match parseNatList? sks, parsePts K pks, parsePts S hms, parsePt S sigs, parsePts S hps, parsePts S pops with
+    | some sk, some pk, some hm, some sig, some hp, some pop =>
+      if sk.length ≠ pk.length ∨ pk.length ≠ hm.length then .unsupported "lengths" else
+      if mode == "p" ∧ hp.length ≠ pop.length then .unsupported "pop lengths" else
+      if mode == "p" ∧ pop.length ≠ pk.length then spec "bls-aggverify" "reject" rhs else
+      if hm.any (fun h => !(blsAdmissible tf h)) || hp.any (fun h => !(blsAdmissible tf h)) then
+        .bad "bls-hash-to-curve" "H(m) is not a non-identity subgroup point" else
+      if pk.isEmpty then spec "bls-aggverify" "reject" rhs else
+      if pk.any (fun P => !(blsAdmissible tf P)) || !(blsAdmissible tf sig) then spec "bls-aggverify" "reject" rhs else
+      if (List.zip sk pk).any (fun (s, P) => (⟨Curves.smul K (s % K.n) (Curves.gen K)⟩ : CPt K) ≠ P) then .unsupported "pk != sk*g" else
+      if mode == "b" ∧ !(allDistinct hm) then spec "bls-aggverify" "reject" rhs else
+      let popsOk := mode != "p" ||
+        (List.zip sk (List.zip hp pop)).all fun (s, h, π) => blsAdmissible tf π && decide (blsSign (Fp.ofNat S.n s) h = π)
+      if !popsOk then spec "bls-aggverify" "reject" rhs else
+      let expect : CPt S := blsAggregate ((List.zip sk hm).map fun (s, h) => blsSign (Fp.ofNat S.n s) h)
+      spec "bls-aggverify" (acc (decide (expect = sig))) rhs
+    | _, _, _, _, _, _ => .unsupported "args"
+  | _, _ => .unsupported ("C15 op " ++ op)
 
 end BronVerif.Drive.C15
